@@ -41,6 +41,11 @@ class Session:
             self.cex = (describe, m)
         if len(self.cexs) < 25:
             self.cexs.append((describe, m))
+        if len(self.cexs) >= 8 and getattr(self.ex, "hinted", 0):
+            # the solver needs pinned inputs on this tree: every further path costs a timeout; eight
+            # counterexamples are enough to look for one that replays
+            self.stopped = True
+            raise esym.StopExploration()
         return m
 
     def finish(self, replay=None):
@@ -53,6 +58,8 @@ class Session:
         if self.cex is None:
             r.status = HELD
             return r
+        if getattr(self, "stopped", False):
+            r.detail += " (exploration stopped after 8 counterexamples)"
         describe, model = self.cex
         r.discharged -= len(self.cexs)
         if replay is None:
@@ -614,6 +621,9 @@ def c17_cpu_count():
             if len(samples) < 6:
                 samples.append({"only_physical_cores": True, "cache": str(cache), "decisions": list(p.decisions)})
 
+        # representative periods for the fallback of Explorer.check (kernel default 100 ms, 1 s, 1 ms, 1 us)
+        S.ex.hints = [[V["period"] == v] for v in (100000, 1000000, 1000, 1)]
+        S.ex.solver.set("timeout", 20000)
         S.ex.run_all(body_logical)
         n1 = S.ex.paths
         S.ex.run_all(body_physical)
